@@ -44,7 +44,8 @@ def check_combiner(w, r):
     r.paths += len(w.roots['behaviour'])
     # ---- R2: structural loop-bound flow
     key2 = f'{fi.key}::recipe-reservations'
-    why = recipe_shape(fi)
+    scope = closure_nodes(w, fi)
+    why = recipe_shape(scope)
     (r.ok if not why else r.fail)('C16.R2', key2, 'for k in range(1, len(in_edges)): for _ in range(recipe[k]): tokens.append(in_edges[k].reserve_get()); index.append(k)'
                                   if not why else why, src(fi.module), fi.node.lineno)
     # ---- R1 / R3: path based
@@ -97,8 +98,10 @@ def check_combiner(w, r):
                 if a_.list == b_.list or a_.args != b_.args:
                     bad3 = bad3 or (pa, 'token list and index list are not popped at the same index')
         # exit condition of the drain loop
-    wl = [x for x in walk_no_nested(fi.node) if isinstance(x, ast.While) and 'reservation' in ast.unparse(x.test)]
-    if len(wl) != 1 or ast.unparse(wl[0].test).replace(' ', '') not in ('len(reservation_tokens)>0', 'reservation_tokens', 'len(reservation_tokens)!=0'):
+    toks = token_list_names(scope)
+    wl = [x for fn in scope for x in walk_no_nested(fn) if isinstance(x, ast.While) and any(
+        ast.unparse(x.test).replace(' ', '') in (f'len({t})>0', t, f'len({t})!=0') for t in toks)]
+    if len(wl) != 1:
         bad3 = bad3 or (w.roots['behaviour'][0], 'the drain loop does not run until the token list is empty')
     if n == 0:
         bad1 = (w.roots['behaviour'][0], 'no complete combiner iteration found')
@@ -108,12 +111,39 @@ def check_combiner(w, r):
                                    src(fi.module), fi.node.lineno, *([bad3[0].describe()] if bad3 else []))
 
 
-def recipe_shape(fi):
+def closure_nodes(w, fi):
+    """the function and the private helpers of its class that it runs (plain calls and `yield from`), transitively"""
+    out, seen, work = [], set(), [fi]
+    while work:
+        f = work.pop()
+        if f.key in seen:
+            continue
+        seen.add(f.key)
+        out.append(f.node)
+        for n in walk_no_nested(f.node):
+            if isinstance(n, ast.Call) and isinstance(n.func, ast.Attribute) and isinstance(n.func.value, ast.Name) and n.func.value.id == 'self' \
+                    and n.func.attr.startswith('_') and n.func.attr in w.methods and n.func.attr not in ('_push_item',):
+                work.append(w.methods[n.func.attr])
+    return out
+
+
+def token_list_names(scope):
+    """local lists that collect reserve_get tokens: X in `X.append(<edge>.reserve_get())`"""
+    out = set()
+    for fn in scope:
+        for c in walk_no_nested(fn):
+            if isinstance(c, ast.Call) and isinstance(c.func, ast.Attribute) and c.func.attr == 'append' and isinstance(c.func.value, ast.Name) and c.args \
+                    and any(isinstance(x, ast.Call) and isinstance(x.func, ast.Attribute) and x.func.attr == 'reserve_get' for x in ast.walk(c.args[0])):
+                out.add(c.func.value.id)
+    return out
+
+
+def recipe_shape(scope):
     outer = None
-    for n in walk_no_nested(fi.node):
-        if isinstance(n, ast.For) and isinstance(n.iter, ast.Call) and ast.unparse(n.iter.func) == 'range' and 'in_edges' in ast.unparse(n.iter):
-            outer = n
-            break
+    for fn in scope:
+        for n in walk_no_nested(fn):
+            if isinstance(n, ast.For) and isinstance(n.iter, ast.Call) and ast.unparse(n.iter.func) == 'range' and 'in_edges' in ast.unparse(n.iter):
+                outer = outer or n
     if outer is None:
         return 'no loop over the ingredient in-edges'
     it = ast.unparse(outer.iter).replace(' ', '')
